@@ -308,6 +308,18 @@ def gen_c20(tier, seed):
                                      'rb:400000', 'rw:400000', 'wh:400000:1234', 'rh:400001']))
         ops += ['rh:400000', 'rh:400002', 'rb:200037', 'gi', 'rb:200013', 'gi']
         g.add(ops, 'mouse')
+    # a button event followed by any channel command (receiver / transmitter enable, disable, resets) or other guest
+    # register traffic before the guest acknowledges it: the request must stay until IPCR is read
+    cmds = [0x01, 0x02, 0x04, 0x05, 0x08, 0x0a, 0x10, 0x15, 0x20, 0x22, 0x30, 0x40, 0x45, 0x50]
+    others = ['rb:200007', 'rb:20000f', 'rb:20002f', 'rb:200017', 'rb:200037', 'wb:200017:0', 'wb:200017:ff', 'wb:20000f:41',
+              'wb:20002f:41', 'qa:41', 'qb:41', 'pa', 'pb', 'mm:10:20', 'rh:400000']
+    for ev in ('md:0', 'md:1', 'md:2', 'mu:0', 'mu:1', 'mu:2', 'md:7'):
+        for pre in ([], ['md:1', 'rb:200013'], ['wb:20000b:5', 'wb:20002b:5']):
+            for reg in (0x20000b, 0x20002b):
+                for c in cmds:
+                    g.add(pre + [ev, 'gi', 'wb:%x:%x' % (reg, c), 'gi', 'rb:200017', 'rb:200037', 'rb:200013', 'gi'], 'event-then-command')
+            for o in others:
+                g.add(pre + [ev, 'gi', o, 'gi', 'rb:200017', 'rb:200037', 'rb:200013', 'gi'], 'event-then-traffic')
     return g.result('Histories of mouse_move/mouse_down/mouse_up (buttons 0-2 and arbitrary numbers, boundary and random '
                     'coordinates) interleaved with guest reads of the mouse, input-port, IPCR and ISR registers, '
                     'interrupt polls, vertical-blank ticks and unrelated DUART traffic.')
@@ -589,6 +601,32 @@ def gen_c08(tier, seed):
                             ops += ['rb:%x' % (0x200007 + ch), 'rb:%x' % (0x20000f + ch), 'gi']
                         ops.append('ds')
                         g.add(ops, 'fill-cmd-refill')
+    # every channel mode (MR2 bits 7:6: normal, automatic echo, local loop-back, remote loop-back) x receiver enabled or not:
+    # host bytes and the guest's own transmissions arrive (or not) exactly as the mode says
+    for ch in (0, 0x20):
+        q = 'qa' if ch == 0 else 'qb'
+        pl = 'pa' if ch == 0 else 'pb'
+        for mr2 in (0x07, 0x47, 0x87, 0xc7, 0x80, 0xc0, 0xbf, 0xff):
+            for en in (0x05, 0x04, 0x01, 0x06, 0x09):
+                for nhost in (0, 1, 2, 4):
+                    for ntx in (0, 1, 2):
+                        ops = ['wb:%x:10' % (0x20000b + ch), 'wb:%x:13' % (0x200003 + ch), 'wb:%x:%x' % (0x200003 + ch, mr2),
+                               'wb:%x:%x' % (0x20000b + ch, en)]
+                        t = 0
+                        for k in range(nhost):
+                            ops.append('%s:%x' % (q, 0x31 + k))
+                        for k in range(ntx):
+                            ops += ['rb:%x' % (0x200007 + ch), 'wb:%x:%x' % (0x20000f + ch, 0x61 + k)]
+                            for _ in range(2):
+                                t += 1000000
+                                ops += ['t:%x' % t, 'sv']
+                        for k in range(nhost + 1):
+                            t += 1000000
+                            ops += ['t:%x' % t, 'sv']
+                        for k in range(nhost + ntx + 1):
+                            ops += ['rb:%x' % (0x200007 + ch), 'rb:%x' % (0x20000f + ch), 'gi']
+                        ops += [pl, pl, pl, 'ds']
+                        g.add(ops, 'mode-x-enable')
     return g.result('Receive-path histories on both channels: fill level (0-6 arrivals) x reads (0-4) x command sequence (reset/disable/enable/reset-error) x refill scenarios; bursts of host enqueues, paced service calls, status-gated and '
                     'ungated RHR reads, enable/disable/reset commands, all FIFO fill levels up to 3+1+overrun, plus all '
                     'histories of length 5 (quick) / 7 (thorough) over {enqueue 2 values, 1 ms step, gated read, reset rx, enable rx}.')
@@ -596,6 +634,52 @@ def gen_c08(tier, seed):
 
 def gen_c09(tier, seed):
     g = gen_duart('g', tier, seed, 2500, 80000, 'c09')
+    # the transmitter while the receiver of the same channel has a backlog (0-6 unread characters): a write, a read of
+    # the receive register before the next service, the status, a second write
+    for ch in (0, 0x20):
+        q = 'qa' if ch == 0 else 'qb'
+        pl = 'pa' if ch == 0 else 'pb'
+        for fill in range(0, 7):
+            for nrd in (0, 1, 2):
+                for gap in (0, 1, 2):
+                    ops = ['wb:%x:5' % (0x20000b + ch)]
+                    t = 0
+                    for k in range(fill):
+                        ops.append('%s:%x' % (q, 0x31 + k))
+                    for k in range(fill):
+                        t += 1000000
+                        ops += ['t:%x' % t, 'sv']
+                    ops += ['rb:%x' % (0x200007 + ch), 'wb:%x:58' % (0x20000f + ch)]
+                    for k in range(gap):
+                        t += 100000
+                        ops += ['t:%x' % t, 'sv']
+                    for k in range(nrd):
+                        ops += ['rb:%x' % (0x20000f + ch), 'rb:%x' % (0x200007 + ch), 'gi']
+                    ops += ['wb:%x:59' % (0x20000f + ch), 'rb:%x' % (0x200007 + ch)]
+                    for k in range(4):
+                        t += 1000000
+                        ops += ['t:%x' % t, 'sv', 'rb:%x' % (0x200007 + ch)]
+                    ops += [pl, pl, pl, 'ds']
+                    g.add(ops, 'tx-with-rx-backlog')
+    # every channel mode x receiver state (never enabled, enabled, disabled again, reset) x 1-3 gated writes: where each
+    # completed character goes (host queue, the channel's own receiver, or nowhere)
+    for ch in (0, 0x20):
+        pl = 'pa' if ch == 0 else 'pb'
+        for mr2 in (0x07, 0x47, 0x87, 0xc7):
+            for rxs in ([0x04], [0x05], [0x05, 0x02], [0x05, 0x20], [0x05, 0x02, 0x01], [0x06]):
+                for nw in (1, 2, 3):
+                    ops = ['wb:%x:10' % (0x20000b + ch), 'wb:%x:13' % (0x200003 + ch), 'wb:%x:%x' % (0x200003 + ch, mr2)]
+                    ops += ['wb:%x:%x' % (0x20000b + ch, c) for c in rxs]
+                    t = 0
+                    for k in range(nw):
+                        ops += ['rb:%x' % (0x200007 + ch), 'wb:%x:%x' % (0x20000f + ch, 0x41 + k)]
+                        for _ in range(2):
+                            t += 1000000
+                            ops += ['t:%x' % t, 'sv']
+                    for k in range(nw + 1):
+                        ops += ['rb:%x' % (0x200007 + ch), 'rb:%x' % (0x20000f + ch)]
+                    ops += [pl, pl, pl, pl, 'ds']
+                    g.add(ops, 'mode-x-receiver-state')
     return g.result('Transmit-path histories on both channels: status-gated and ungated THR writes, service at and around the '
                     'character time, host polls, enable/disable/reset-transmitter and mode (loop-back) commands.')
 
